@@ -266,7 +266,7 @@ class ReactionQuery(object):
             modifier = 0
             for i in range(0, len(match)):
                 if i != 0:
-                    modifier = reactants[i-1].GetNumAtoms()
+                    modifier += reactants[i-1].GetNumAtoms()
                 row += list(map(add, list(match[i]), [modifier]*len(match[i])))
             self.combined_mol_match_index.append(row)
         # Combine reactants
